@@ -289,6 +289,37 @@ HISTORY_R10 = {
 }
 
 
+HISTORY_R11 = {
+    "C01-r11m1": "missed at first -> a Union one of whose alternatives is refined by a Dependent on an earlier sibling; creation that fails with a foreign error on the units grammar is reported",
+    "C01-r11m2": "missed at first -> a refined slot of an ABSTRACT type (Annotated[Op, VarRange([Add(), Sub()])]) in a grammar extracted with expansion_depthing=True",
+    "C02-r11m1": "missed at first -> FloatRange with int bounds beyond 2**53 (and equal / one-ulp bounds) generated from every genotype-backed source at the genes that select the ends of the range",
+    "C03-r11m1": "first detected only as a broken correspondence (no failing input); the deep-nested-layer witnesses added for C03-r11m2 now give a failing input too",
+    "C03-r11m2": "missed at first -> a recursive nested abstract layer whose shallowest production needs three levels, beside a leaf",
+    "C04-r11m1": "missed at first -> programs created from g.usable_grammar() of grammars with abstract alternatives of abstract types that no field mentions",
+    "C04-r11m2": "missed at first -> the weighted-string grammar (all-zero row) under the three deciders: strings keep one letter per row",
+    "C05-r11m1": "first detected only as a broken correspondence (no failing input)",
+    "C05-r11m2": "missed at first -> recursion cycles through 3 to 40 CONCRETE classes and no abstract type, declared out of cycle order",
+    "C06-r11m1": "missed at first -> the crossover step asked for more offspring than the population can pair (populations of 1 to 5)",
+    "C06-r11m2": "missed at first -> genomes that hold the same value at several loci",
+    "C08-r11m1": "missed at first -> one process environment runs with the library's loggers at DEBUG; crossover followed at once by mutation under dynamic SGE",
+    "C08-r11m2": "missed at first -> the weighted grammar under representations that pick a production by its index (tree, GE, SGE, PI-grow)",
+    "C09-r11m1": "missed at first -> programs that hold classes of the grammar as field values: nothing is written onto the class objects",
+    "C09-r11m2": "missed at first -> AdaptiveGeneticProgramming runs with every registered individual snapshotted and revalidated",
+    "C10-r11m2": "missed at first -> entries of the minimum-depth table for anything that is not a registered symbol are part of the grammar snapshot",
+    "C11-r11m2": "missed at first -> the stack representation on a concrete start symbol that needs a list of an abstract element type, both depth modes",
+    "C12-r11m1": "missed at first -> geml.common.PopulationRecorder: its head is the tracker's best, also after more improvements than it has slots",
+    "C12-r11m2": "missed at first -> real tree programs (with size metadata) under a coarse fitness: a tie is no improvement",
+    "C13-r11m1": "missed at first -> newcomers presented to the parallel evaluator ONE AT A TIME with the shared random source moving on in between (dynamic SGE)",
+    "C13-r11m2": "missed at first -> AdaptiveGeneticProgramming: evaluation counter == fitness-function invocations, nobody evaluated twice",
+    "C14-r11m2": "missed at first -> ONE step object serving several searches with different population sizes, the larger first",
+    "C15-r11m1": "missed at first -> target sizes 256 .. 1000 for every step",
+    "C17-r11m1": "missed at first -> 13 to 20 cases on which near-clones differ in one or two (the model's existential over case orders is asked up to 6 cases; beyond, the drawn order decides)",
+    "C19-r11m1": "missed at first -> the weights an extracted grammar reports are unchanged by g.usable_grammar(), productions of infinite distance included",
+    "C20-r11m1": "missed at first -> a problem whose author overrides is_better (lexicographic): the best-only log follows THAT order",
+    "C20-r11m2": "missed at first -> SimpleGP extra columns over programs whose __str__ does not tell them apart",
+}
+
+
 def main():
     old = (VERIF / "seeded/INDEX.md").read_text() if (VERIF / "seeded/INDEX.md").exists() else ""
     hist = {}
@@ -305,7 +336,8 @@ def main():
     hist.update(HISTORY_R8)
     hist.update(HISTORY_R9)
     hist.update(HISTORY_R10)
-    rows, caught = [], 0
+    hist.update(HISTORY_R11)
+    rows, caught, neutralised = [], 0, []
     dirs = sorted(p for p in (VERIF / "seeded").iterdir() if p.is_dir())
     for d in dirs:
         meta = json.loads((d / "meta.json").read_text())
@@ -314,9 +346,16 @@ def main():
         what = notes[0].lstrip("# ").strip()[:110]
         chk = (meta.get("what_was_run", {}).get("checks") or meta.get("checks") or {}).get(prop, {})
         ok = prop in (meta.get("caught_by") or [])
+        neutral = meta.get("neutralised_by_fix")
+        if neutral:
+            # a later fix: commit in /repo removed the mechanism this change relied on: with the change applied to HEAD the property holds
+            # (the author's demo passes), and the check -- rightly -- reports nothing
+            neutralised.append(d.name)
+            rows.append(f"| {d.name} | {prop} | {what} | n/a on HEAD | (detected when it was stored) | no longer breaks the property since fix {neutral}: its demo passes with the change applied; the check reports nothing |")
+            continue
         caught += ok
         rows.append(f"| {d.name} | {prop} | {what} | {'yes' if ok else 'NO'} | {chk.get('first', '')[:150].replace('|', '/')} | {hist.get(d.name, FIRST)} |")
-    n = len(dirs)
+    n = len(dirs) - len(neutralised)
     def rn(k):
         return sum(1 for d in dirs if f"-r{k}m" in d.name)
     r1 = sum(1 for d in dirs if "-r" not in d.name)
@@ -329,10 +368,10 @@ against scratch copies (`VERIF_REPO`).  All {n} changes keep the repository's fa
 Round 1: {r1} changes (`Cxx-mK`); round 2: {rn(2)} changes (`Cxx-r2mK`), whose authors were asked to look beyond the obvious function;
 round 3: {rn(3)} changes (`Cxx-r3mK`), whose authors were told that a randomised differential test on small inputs exists and asked for
 rarely used library features, narrow triggers and state carried between calls; round 4: {rn(4)} changes (`Cxx-r4mK`), same brief plus the list of
-everything tried before for that property ("find something genuinely different"); rounds 5 to 10: {rn(5)}, {rn(6)}, {rn(7)}, {rn(8)}, {rn(9)} and {rn(10)} changes
-(`Cxx-r5mK` ... `Cxx-r10mK`), same brief, each with the ideas of all earlier rounds listed as already tried.
+everything tried before for that property ("find something genuinely different"); rounds 5 to 11: {rn(5)}, {rn(6)}, {rn(7)}, {rn(8)}, {rn(9)}, {rn(10)} and {rn(11)} changes
+(`Cxx-r5mK` ... `Cxx-r11mK`), same brief, each with the ideas of all earlier rounds listed as already tried.
 
-**{caught} of {n} are detected by the quick check of the property they break** (the `history` column says which were missed on their first evaluation and what was strengthened).
+**{caught} of {n} are detected by the quick check of the property they break** ({len(neutralised)} more were made harmless by later `fix:` commits in /repo and are listed as n/a) (the `history` column says which were missed on their first evaluation and what was strengthened).
 
 | change | property | what | caught by its property's check | first line of the report | history |
 |---|---|---|---|---|---|
